@@ -2,6 +2,7 @@
 #include <xtl/xdynamic_bitset.hpp>
 
 #include "explorer.hpp"
+#include "history.hpp"
 
 #include <algorithm>
 #include <cstdint>
@@ -507,6 +508,86 @@ std::vector<VW<B>> view_inits(size_t n)
     return r;
 }
 
+// ---------------------------------------------------------------------------------------------------------
+// fault part: an allocator whose allocate() is a throw point; after a failed (throwing) operation the bitset must
+// still be a well-formed bitset: block_count() == ceil(size()/w), bits beyond size() zero, all queries consistent
+// ---------------------------------------------------------------------------------------------------------
+template <class T>
+struct FaultAlloc
+{
+    typedef T value_type;
+    FaultAlloc() = default;
+    template <class U> FaultAlloc(const FaultAlloc<U>&) {}
+    T* allocate(std::size_t n) { pl::throw_point("allocate"); return static_cast<T*>(::operator new(n * sizeof(T))); }
+    void deallocate(T* p, std::size_t) { ::operator delete(p); }
+    template <class U> bool operator==(const FaultAlloc<U>&) const { return true; }
+    template <class U> bool operator!=(const FaultAlloc<U>&) const { return false; }
+};
+
+template <class B>
+struct FW
+{
+    typedef xtl::xdynamic_bitset<B, FaultAlloc<B>> BS;
+    BS bs;
+    std::vector<bool> m;
+    std::string key() const { return str(bs.size()) + ":" + str(bs.block_count()) + ":" + hexblocks(bs.data(), bs.block_count()); }
+    void light(Errs& e)
+    {
+        if (bs.size() != m.size()) { e.add("state-size", "size()=" + str(bs.size()) + " model " + str(m.size())); return; }
+        for (size_t i = 0; i < m.size(); ++i) if (bool(bs[i]) != m[i]) { e.add("state-bits", "bit " + str(i) + " differs from the model " + bits(m)); return; }
+    }
+    void check(Errs& e) { query_all(bs, m, e, true); }
+    // after an injected allocation failure: continue from what is there, but it must be a well-formed bitset
+    void resync_after_fault(Errs& e)
+    {
+        const size_t w = sizeof(B) * 8;
+        m.assign(bs.size(), false);
+        if (bs.block_count() != (bs.size() + w - 1) / w) { e.add("fault-block-count", "after the failed operation block_count()=" + str(bs.block_count()) + " with size()=" + str(bs.size())); return; }
+        for (size_t i = 0; i < m.size(); ++i) m[i] = bool(bs[i]);
+    }
+};
+
+template <class B>
+void build_fault(vf::HistoryExplorer<FW<B>>& hx, size_t S)
+{
+    typedef FW<B> W;
+    const size_t w = sizeof(B) * 8;
+    std::set<size_t> sz = {0, 1, w - 1, w, w + 1, 2 * w - 1, 2 * w, 2 * w + 1, S};
+    auto guarded = [](std::function<void(W&)> impl, std::function<void(W&)> model) {
+        return [impl, model](W& x, Errs& e) {
+            try { pl::Arm arm; impl(x); } catch (const pl::Injected&) { x.resync_after_fault(e); return true; }
+            model(x);
+            return true; };
+    };
+    for (size_t s : sz)
+    {
+        if (s > S) continue;
+        for (int b = 0; b < 2; ++b)
+        {
+            hx.add_op("resize", "resize(" + str(s) + "," + str(b) + ")", guarded([s, b](W& x) { x.bs.resize(s, b != 0); }, [s, b](W& x) { x.m.resize(s, b != 0); }));
+            hx.add_op("assign", "assign(" + str(s) + "," + str(b) + ")", guarded([s, b](W& x) { x.bs.assign(s, b != 0); }, [s, b](W& x) { x.m.assign(s, b != 0); }));
+        }
+    }
+    for (int b = 0; b < 2; ++b)
+        hx.add_op("push_back", "push_back(" + str(b) + ")", [S, b](W& x, Errs& e) {
+            if (x.m.size() >= S) return false;
+            try { pl::Arm arm; x.bs.push_back(b != 0); } catch (const pl::Injected&) { x.resync_after_fault(e); return true; }
+            x.m.push_back(b != 0); return true; });
+    hx.add_op("pop_back", "pop_back()", [](W& x, Errs&) { if (x.m.empty()) return false; x.bs.pop_back(); x.m.pop_back(); return true; });
+    hx.add_op("flip-all", "flip()", [](W& x, Errs&) { x.bs.flip(); x.m.flip(); return true; });
+    hx.add_op("set-all", "set()", [](W& x, Errs&) { x.bs.set(); x.m.assign(x.m.size(), true); return true; });
+    hx.add_op("clear", "clear()", [](W& x, Errs&) { x.bs.clear(); x.m.clear(); return true; });
+    hx.add_op("copy-assign", "bs=copy(bs)", [](W& x, Errs& e) {
+        try { pl::Arm arm; typename W::BS c(x.bs); x.bs = c; } catch (const pl::Injected&) { x.resync_after_fault(e); }
+        return true; });
+    hx.add_op("reserve", "reserve(3w)", [w](W& x, Errs& e) {
+        try { pl::Arm arm; x.bs.reserve(3 * w); } catch (const pl::Injected&) { x.resync_after_fault(e); }
+        return true; });
+}
+
+template <class B>
+void run_fault(const struct Opts& o);
+
 struct Opts
 {
     std::string mode, replay_inst, replay_trace;
@@ -560,6 +641,21 @@ void run_view(const Opts& o)
     }
 }
 
+template <class B>
+void run_fault(const Opts& o)
+{
+    vf::HistoryExplorer<FW<B>> hx;
+    hx.prop = "C03";
+    hx.inst = std::string(bname<B>::n()) + "/fault" + str(o.S);
+    hx.max_depth = o.depth;
+    hx.max_states = o.max_states;
+    hx.deadline_s = o.deadline;
+    build_fault<B>(hx, o.S);
+    if (o.mode == "replay") { hx.replay(o.replay_trace); return; }
+    hx.run();
+    hx.summarize(o.depth == (1 << 30));
+}
+
 int main(int argc, char** argv)
 {
     Opts o;
@@ -584,10 +680,11 @@ int main(int argc, char** argv)
             block = o.replay_inst.substr(0, sl);
             std::string rest = o.replay_inst.substr(sl + 1);
             if (rest[0] == 'S') { kind = "owning"; o.S = size_t(atoi(rest.c_str() + 1)); }
+            else if (rest[0] == 'f') { kind = "fault"; o.S = size_t(atoi(rest.c_str() + 5)); }
             else { kind = "view"; o.S = size_t(atoi(rest.c_str() + 4)); }
         }
     }
-#define DISPATCH(T, NAME) if (block == NAME) { if (kind == "owning") run_owning<T>(o); else run_view<T>(o); }
+#define DISPATCH(T, NAME) if (block == NAME) { if (kind == "owning") run_owning<T>(o); else if (kind == "fault") run_fault<T>(o); else run_view<T>(o); }
     DISPATCH(uint8_t, "u8")
     DISPATCH(uint16_t, "u16")
     DISPATCH(uint32_t, "u32")
